@@ -26,6 +26,10 @@ import traceback
 VERIF = os.path.dirname(os.path.dirname(os.path.abspath(__file__)))
 SRC = os.path.abspath(os.environ.get("PYMODES_SRC", "/repo/src"))
 NPROC = int(os.environ.get("VERIF_NPROC", "16"))
+# a second, smaller run of the same legs in a child interpreter started with PYTHONOPTIMIZE=1 (python -O: assert statements and
+# `if __debug__` blocks vanish); the child samples every fourth enumerated case and a quarter of the generated ones
+OPT_CHILD = os.environ.get("VERIF_OPT_CHILD") == "1"
+OPT_ON = os.environ.get("VERIF_OPT", "1") != "0"
 MAX_SAMPLES = 8
 
 
@@ -101,6 +105,8 @@ class Ctx:
         self.n = n  # per-leg size parameter for this tier (total, not per shard)
 
     def mine(self, idx):
+        if OPT_CHILD and ((idx * 2654435761) >> 7) % 4 != 0:
+            return False
         return idx % self.nshards == self.shard
 
     def rng(self, *salt):
@@ -284,6 +290,8 @@ def _run_hyp(leg, stats, known, tier, seed, shard, nshards, n):
     from hypothesis import HealthCheck, Phase, given, settings
 
     per = max(1, (n + nshards - 1) // nshards)
+    if OPT_CHILD:
+        per = max(1, per // 4)
     shrink_budget = 20.0 if tier == "quick" else 90.0
     state = {"t_fail": None}
     legidx = sum(ord(c) for c in leg.name) % 997
@@ -336,6 +344,8 @@ def _run_machine(leg, stats, tier, seed, shard, nshards, n):
     M.BEST, M.T_FAIL, M.COLLECT = None, None, []
     M.BUDGET = 25.0 if tier == "quick" else 120.0
     per = max(1, (n + nshards - 1) // nshards)
+    if OPT_CHILD:
+        per = max(1, per // 4)
     steps = leg.steps_quick if tier == "quick" else leg.steps_thorough
     legidx = sum(ord(c) for c in leg.name) % 997
     cls = hypothesis.seed(seed * 1000003 + shard * 1009 + legidx)(M)
@@ -407,6 +417,8 @@ def write_replay(prop, legname, failure, seed, tier):
             "seed": seed, "tier": tier}
     if failure.get("recipe"):
         body["recipe"] = failure["recipe"]
+    if failure.get("interpreter") or sys.flags.optimize:
+        body["interpreter"] = "-O"
     sha = hashlib.sha1(json.dumps([prop, legname, failure["case"]], sort_keys=True, default=repr).encode()).hexdigest()[:12]
     path = os.path.join(rdir, "%s-%s.json" % (prop, sha))
     with open(path, "w") as f:
@@ -436,6 +448,7 @@ def run_check(modname, tier, seed, only_legs=None):
             tasks.append((modname, leg.name, tier, seed, sh, ns, n))
     per_leg = collections.OrderedDict((l.name, Stats(l.name)) for l in mod.LEGS
                                       if not only_legs or l.name in only_legs)
+    child = _opt_child_start(mod, tier, seed, only_legs)
     if NPROC > 1 and len(tasks) > 1:
         ctxm = mp.get_context("fork")
         with ctxm.Pool(min(NPROC, len(tasks))) as pool:
@@ -451,20 +464,23 @@ def run_check(modname, tier, seed, only_legs=None):
     known_lines, known_info = probe_known(mod)
     failures = [(name, s.failure) for name, s in per_leg.items() if s.failure]
     failures += [(name, fl) for name, fl, _ in regress["failed"]]
+    opt_info = _opt_child_finish(child, failures)
     viol_paths = []
     if failures:
         name, fl = failures[0]
         leg = [l for l in mod.LEGS if l.name == name][0]
-        if leg.enum is not None:
+        if leg.enum is not None and not fl.get("interpreter"):
             fl = dict(fl)
             fl["case"] = generic_shrink(leg, fl["case"], [])
         viol_paths.append(write_replay(prop, name, fl, seed, tier))
     wall = time.time() - t0
     ev = build_evidence(mod, per_leg, tier, seed, wall, len(failures), known_info)
     ev["coverage"]["stored_replays_rerun"] = regress["n"]
+    if opt_info is not None:
+        ev["coverage"]["optimized_interpreter"] = opt_info
     evdir = os.environ.get("VERIF_EVIDENCE_DIR") or os.path.join(VERIF, "evidence")
     os.makedirs(evdir, exist_ok=True)
-    if not only_legs:
+    if not only_legs or OPT_CHILD:
         with open(os.path.join(evdir, prop + ".json"), "w") as f:
             json.dump(ev, f, indent=1, default=repr)
     for ln in known_lines:
@@ -484,6 +500,55 @@ def run_check(modname, tier, seed, only_legs=None):
             sys.stderr.write("HARNESS ERROR in leg %s:\n%s\n" % (s.leg, s.harness_error))
         return 2
     return 0
+
+
+def _opt_child_start(mod, tier, seed, only_legs):
+    import subprocess
+    import tempfile
+
+    if OPT_CHILD or not OPT_ON or sys.flags.optimize:
+        return None
+    names = [l.name for l in mod.LEGS if getattr(l, "opt", True) and l.name != "threads" and not l.name.startswith("atheris")
+             and (not only_legs or l.name in only_legs)]
+    if not names:
+        return None
+    d = tempfile.mkdtemp(prefix="pmsopt-", dir="/var/tmp")
+    env = dict(os.environ, PYTHONOPTIMIZE="1", PYTHONHASHSEED="0", VERIF_OPT_CHILD="1", VERIF_EVIDENCE_DIR=d, VERIF_SEED=str(seed),
+               VERIF_NPROC=str(max(2, NPROC // 4)))
+    proc = subprocess.Popen([os.path.join(VERIF, "check"), mod.PROPERTY, "--tier", tier, "--legs", ",".join(names)],
+                            env=env, stdout=subprocess.PIPE, stderr=subprocess.PIPE, text=True)
+    return proc, d, names
+
+
+def _opt_child_finish(child, failures):
+    import shutil
+
+    if child is None:
+        return None
+    proc, d, names = child
+    try:
+        out, err = proc.communicate()
+        if proc.returncode == 1:
+            path = [ln.split("replay=", 1)[1].strip() for ln in out.splitlines() if ln.startswith("VIOLATION ")][0]
+            with open(path) as f:
+                body = json.load(f)
+            fl = {"case": body["case"], "problem": "[in an interpreter started with python -O] " + body["problem"], "interpreter": "-O"}
+            if body.get("recipe"):
+                fl["recipe"] = body["recipe"]
+            failures.append((body["leg"], fl))
+        elif proc.returncode != 0:
+            raise HarnessError("the python -O child run failed (exit %r):\n%s" % (proc.returncode, err[-3000:]))
+        info = {"flags": "PYTHONOPTIMIZE=1", "legs": names, "sampling": "every fourth enumerated case, a quarter of the generated cases"}
+        try:
+            with open([os.path.join(d, x) for x in os.listdir(d) if x.endswith(".json") and "-" not in x][0]) as f:
+                cev = json.load(f)
+            info["evaluations"] = cev["coverage"]["evaluations"]
+            info["distinct_nontrivial"] = cev["coverage"]["distinct_nontrivial"]
+        except Exception:
+            pass
+        return info
+    finally:
+        shutil.rmtree(d, ignore_errors=True)
 
 
 def replay_stored(mod, per_leg):
@@ -603,6 +668,12 @@ def run_replay(modname, path):
     mod = importlib.import_module(modname)
     with open(path) as f:
         body = json.load(f)
+    if body.get("interpreter") == "-O" and not sys.flags.optimize:
+        import subprocess
+        # found under python -O: replay it there
+        r = subprocess.run([os.path.join(VERIF, "check"), mod.PROPERTY, "--replay", os.path.abspath(path)],
+                           env=dict(os.environ, PYTHONOPTIMIZE="1", PYTHONHASHSEED="0"))
+        return r.returncode
     leg = [l for l in mod.LEGS if l.name == body["leg"]][0]
     problem = None
     for hostile in (False, True):  # a stored case is replayed under both ambient process states
